@@ -357,7 +357,7 @@ def run_parts_and_rsp(report, rng, n):
     from picosvg.svg import SVG
 
     for i in range(n):
-        parts = ReusableParts(reuse_tolerance=rng.choice([0.1, 0.05, 1.0]), view_box=Rect(0, 0, rng.choice([10, 128, 1000]), rng.choice([10, 128])))
+        parts = ReusableParts(reuse_tolerance=rng.choice([0.1, 0.05, 1.0, -1.0, -1.0]), view_box=Rect(0, 0, rng.choice([10, 128, 1000]), rng.choice([10, 128])))
         vb = parts.view_box
         ds = []
         for _ in range(rng.randint(0, 5)):
